@@ -8,6 +8,10 @@
 //!   sweepchan  the three sweep signing calls on real channels
 //!   htlcval    decode_and_validate_htlc_tx + validate_htlc_tx
 //!   htlcchan   sign_holder_htlc_tx / sign_counterparty_htlc_tx on real channels
+//!   sweephandler / htlchandler   the same requests as protocol messages (SignDelayedPaymentToUs,
+//!              SignRemoteHtlcToUs, SignPenaltyToUs, their SignAny* variants, SignLocalHtlcTx,
+//!              SignAnyLocalHtlcTx, SignRemoteHtlcTx): as_vec -> msgs::from_vec -> ChannelHandler /
+//!              RootHandler at protocol 4/5/6; the property is evaluated on what was SIGNED
 use vharness::*;
 
 use lightning_signer::bitcoin::absolute::LockTime;
@@ -874,6 +878,7 @@ fn sweepval_domain(args: &Args) {
 struct Chan {
     node: Arc<Node>,
     channel_id: ChannelId,
+    dbid: u64,
     dests: Dests,
     height: u32,
     ctype: u8,
@@ -914,7 +919,7 @@ fn make_chan(k: u64, ctype: u8, rules: &Rules, blocks: u32, hd: u16, cd: u16, nh
         Ok(())
     })
     .expect("set next_holder_commit_num");
-    Chan { node, channel_id, dests, height: blocks, ctype, holder_delay: hd, cp_delay: cd, nh, rules: setup_rules, min_feerate, max_feerate }
+    Chan { node, channel_id, dbid: 1 + k, dests, height: blocks, ctype, holder_delay: hd, cp_delay: cd, nh, rules: setup_rules, min_feerate, max_feerate }
 }
 
 fn verify_sig(tx: &Transaction, input: usize, sig: &Signature, pubkey: &PublicKey, amount: u64, script: &ScriptBuf, ty: EcdsaSighashType) -> bool {
@@ -986,12 +991,17 @@ fn sweepchan_domain(args: &Args) {
             if let Ok(Ok(sig)) = &res {
                 if r.kind <= 1 {
                     let pk = if r.kind == 0 {
-                        let point = ch.node.with_channel(&ch.channel_id, |chan| chan.get_per_commitment_point(cn)).expect("point");
-                        get_channel_delayed_payment_pubkey(&ch.node, &ch.channel_id, &point)
+                        match ch.node.with_channel(&ch.channel_id, |chan| chan.get_per_commitment_point(cn)) {
+                            Ok(point) => Some(get_channel_delayed_payment_pubkey(&ch.node, &ch.channel_id, &point)),
+                            Err(_) => None,
+                        }
                     } else {
-                        get_channel_htlc_pubkey(&ch.node, &ch.channel_id, &remote_point)
+                        Some(get_channel_htlc_pubkey(&ch.node, &ch.channel_id, &remote_point))
                     };
-                    let ok = verify_sig(&tx, input, sig, &pk, amount, &script, EcdsaSighashType::All);
+                    let ok = match pk {
+                        Some(pk) => verify_sig(&tx, input, sig, &pk, amount, &script, EcdsaSighashType::All),
+                        None => false,
+                    };
                     sig_checked += 1;
                     sig_valid = Some(ok);
                     if !ok {
@@ -1090,7 +1100,7 @@ fn base_htlc(rng: &mut Rng, is_cp: bool, ctype: u8, hd: u16, cd: u16, min: u32, 
     let offered = rng.chance(1, 2);
     let anch = is_anchors(ctype);
     let w = htlc_weight(ctype, offered);
-    let amount = *rng.pick(&[1_000_000u64, 1_000_000, 10_000_000, 100_000, 2_100_000_000_000_000]);
+    let amount = *rng.pick(&[1_000_000u64, 1_000_001, 10_000_999, 100_000, 123_457, 2_100_000_000_000_000]);
     let rate = *rng.pick(&[min as u64, min as u64 + 1, 1000.max(min as u64).min(max as u64), (max as u64).saturating_sub(1), (min as u64 + max as u64) / 2]);
     let fee = if ctype == 3 { 0 } else { rate * w / 1000 };
     let delay = if is_cp { hd } else { cd };
@@ -1559,6 +1569,545 @@ fn htlcchan_domain(args: &Args) {
     );
 }
 
+// ------------------------------------------------------------------ handler level
+
+use lightning_signer::bitcoin::bip32::Fingerprint;
+use lightning_signer::bitcoin::psbt::Psbt;
+use lightning_signer::bitcoin::secp256k1::XOnlyPublicKey;
+use lightning_signer::util::test_utils::get_channel_revocation_pubkey;
+use vls_protocol::model::{DisclosedSecret, PubKey};
+use vls_protocol::msgs::{self, Message as WireMessage, SerBolt};
+use vls_protocol::serde_bolt::{Octets, WithSize};
+use vls_protocol_signer::handler::Handler;
+
+const PEER: [u8; 33] = [2u8; 33];
+
+/// INDEPENDENT MAPPING — what each wire field must become at the Channel call (written from
+/// the protocol's meaning, not from handler.rs):
+///   * input index      per-channel messages (SignDelayedPaymentToUs, SignRemoteHtlcToUs,
+///                      SignPenaltyToUs, SignLocalHtlcTx, SignRemoteHtlcTx) sign input 0;
+///                      SignAny* sign `input`
+///   * amount           psbt.inputs[that input].witness_utxo.value, satoshi, no unit conversion
+///   * script code      `wscript`, byte for byte
+///   * transaction      the message's `tx` (not the PSBT's unsigned_tx)
+///   * key              delayed sweep: delayed-payment key of holder commitment
+///                      `commitment_number`; remote HTLC sweep / remote HTLC tx: HTLC key tweaked
+///                      by `remote_per_commitment_point`; penalty: revocation key of
+///                      `revocation_secret`; local HTLC tx: HTLC key of holder commitment
+///                      `commitment_number`
+///   * wallet path      the single key origin of PSBT output 0 (bip32_derivation, else
+///                      tap_key_origins), the empty path when it has none; it is the one path
+///                      every output is judged under
+///   * channel          peer id + dbid (SignAny*), the handler's channel otherwise
+///   * sighash type     ALL for sweeps; HTLC transactions: SINGLE|ANYONECANPAY with anchors
+/// A second-level HTLC transaction is validated and signed at input 0 / output 0 only
+/// (channel.rs sign_htlc_tx): for SignAnyLocalHtlcTx with input k the amount is PSBT input k's
+/// and the signature is over input 0 (recorded in the evidence as a limit, see notes).
+struct Glue {
+    any: bool,
+    proto: u32,
+    found: bool,
+    wire_input: u32,
+    /// witness_utxo value per PSBT input
+    psbt_ins: Vec<Option<u64>>,
+    /// key origins per PSBT output: (bip32 paths, taproot paths)
+    psbt_outs: Vec<(Vec<PathKind>, Vec<PathKind>)>,
+    /// witness_script per PSBT output (HTLC messages)
+    psbt_wits: Vec<bool>,
+    label: String,
+}
+
+fn build_psbt(tx: &ATx, g: &Glue, witscript: &ScriptBuf) -> Psbt {
+    // the PSBT's own transaction only provides the shape; the signer must use the message's tx
+    let n_in = g.psbt_ins.len();
+    let n_out = if g.psbt_wits.is_empty() { g.psbt_outs.len() } else { g.psbt_wits.len() };
+    let mut shape = tx.clone();
+    while shape.ins.len() < n_in {
+        shape.ins.push((txid_of(0x70 + shape.ins.len() as u8), 0, 0));
+    }
+    shape.ins.truncate(n_in.max(1));
+    while shape.outs.len() < n_out {
+        shape.outs.push((1, ScriptBuf::new()));
+    }
+    shape.outs.truncate(n_out);
+    let mut psbt = Psbt::from_unsigned_tx(real_tx(&shape)).expect("psbt");
+    // the witness_utxo script is the p2wsh of whatever; the signer reads the value only
+    for (i, a) in g.psbt_ins.iter().enumerate() {
+        if i < psbt.inputs.len() {
+            psbt.inputs[i].witness_utxo = a.map(|v| TxOut { value: Amount::from_sat(v), script_pubkey: witscript.to_p2wsh() });
+        }
+    }
+    let secp = Secp256k1::new();
+    for (j, (b, t)) in g.psbt_outs.iter().enumerate() {
+        if j >= psbt.outputs.len() {
+            break;
+        }
+        for (n, p) in b.iter().enumerate() {
+            psbt.outputs[j].bip32_derivation.insert(make_test_pubkey(70 + (2 * j + n) as u8), (Fingerprint::default(), real_path(*p)));
+        }
+        for (n, p) in t.iter().enumerate() {
+            let (x, _) = XOnlyPublicKey::from_keypair(&secp256k1::Keypair::from_secret_key(&secp, &SecretKey::from_slice(&[90 + (2 * j + n) as u8; 32]).unwrap()));
+            psbt.outputs[j].tap_key_origins.insert(x, (vec![], (Fingerprint::default(), real_path(*p))));
+        }
+    }
+    for (j, w) in g.psbt_wits.iter().enumerate() {
+        if j < psbt.outputs.len() && *w {
+            psbt.outputs[j].witness_script = Some(witscript.clone());
+        }
+    }
+    psbt
+}
+
+/// mapping: the wallet path is the single key origin of PSBT output 0
+fn mapped_path(g: &Glue) -> Option<PathKind> {
+    match g.psbt_outs.first() {
+        None => None,
+        Some((b, t)) =>
+            if let Some(p) = b.first() {
+                Some(*p)
+            } else if let Some(p) = t.first() {
+                Some(*p)
+            } else {
+                Some(PathKind::Empty)
+            },
+    }
+}
+
+fn coq_opt_list(v: &[Option<u64>]) -> String {
+    coq_list(&v.iter().map(|a| match a { Some(x) => format!("Some {}", x), None => "None".to_string() }).collect::<Vec<_>>())
+}
+
+fn handle_wire<H: Handler>(h: &H, bytes: Vec<u8>) -> Option<std::thread::Result<Result<(Vec<u8>, u8), ()>>> {
+    let msg = match msgs::from_vec(bytes) {
+        Ok(m) => m,
+        Err(_) => return None,
+    };
+    Some(catch_unwind(AssertUnwindSafe(|| match h.handle(msg) {
+        Ok(reply) => match msgs::from_vec(reply.as_vec()) {
+            Ok(WireMessage::SignTxReply(r)) => Ok((r.signature.signature.0.to_vec(), r.signature.sighash)),
+            _ => Err(()),
+        },
+        Err(_) => Err(()),
+    })))
+}
+
+fn obs_wire(r: &std::thread::Result<Result<(Vec<u8>, u8), ()>>) -> u64 {
+    match r {
+        Err(_) => 1,
+        Ok(Ok(_)) => 0,
+        Ok(Err(_)) => 150,
+    }
+}
+
+fn glue_json(g: &Glue) -> Value {
+    json!({"sign_any_variant": g.any, "protocol_version": g.proto, "channel_exists": g.found, "wire_input": g.wire_input,
+           "psbt_input_witness_utxo_sat": g.psbt_ins.iter().map(|a| a.map(|v| v.to_string())).collect::<Vec<_>>(),
+           "psbt_output_key_origins(bip32,taproot)": g.psbt_outs.iter().map(|(b, t)| format!("{:?} / {:?}", b, t)).collect::<Vec<_>>(),
+           "psbt_output_witness_script": g.psbt_wits, "glue_label": g.label})
+}
+
+fn sweephandler_domain(args: &Args) {
+    let mut rng = Rng::new(args.seed ^ 0x4a9d);
+    let mut pool: HashMap<String, Chan> = HashMap::new();
+    let mut dist: BTreeMap<String, u64> = Default::default();
+    let mut labels: BTreeMap<String, u64> = Default::default();
+    let (mut monitor_failures, mut signed, mut sig_checked, mut unencodable) = (0u64, 0u64, 0u64, 0u64);
+    let sets = rule_sets();
+    for id in 0..args.n {
+        let kind = (id % 3) as u8;
+        let ctype = *rng.pick(&[1u8, 3, 1, 3, 0, 2]);
+        let ri = rng.below(6) as usize;
+        let blocks = *rng.pick(&[0u32, 3, 5]);
+        let (hd, cd) = *rng.pick(&[(6u16, 7u16), (144, 2016)]);
+        let key = format!("{}-{}-{}-{}", ctype, ri, blocks, cd);
+        if !pool.contains_key(&key) {
+            let k = pool.len() as u64 + 1000 * (args.seed % 1000) + 200;
+            pool.insert(key.clone(), make_chan(k, ctype, &sets[ri], blocks, hd, cd, 53, 253, 25_000));
+        }
+        let ch = pool.get(&key).unwrap();
+        let mut r = gen_sweep(&mut rng, &ch.dests, id, kind, ctype, hd, cd, ch.height, ch.nh);
+        r.rules = ch.rules.clone();
+        if r.tx.ins.is_empty() {
+            // a transaction without inputs does not survive the wire encoding
+            r.tx.ins.push((txid_of(1), 0, 0));
+        }
+        let any = rng.chance(1, 2);
+        if !any && (r.input as usize) < r.tx.ins.len() {
+            // the per-channel messages sign input 0: keep the request's signed input there
+            r.tx.ins.swap(0, r.input as usize);
+            r.input = 0;
+        }
+        // ---- the wire fields
+        let wire_input: u32 = if any { r.input.min(u32::MAX as u64) as u32 } else { *rng.pick(&[0u32, 0, 1, 7]) };
+        if any {
+            r.input = wire_input as u64;
+        }
+        let n_in = r.tx.ins.len();
+        let mut g = Glue {
+            any,
+            proto: *rng.pick(&[4u32, 5, 6]),
+            found: true,
+            wire_input,
+            // distinct true amounts per input: a value read from the wrong PSBT input shows
+            psbt_ins: (0..n_in).map(|i| Some(1_979_997 + 1_000 * i as u64)).collect(),
+            psbt_outs: vec![],
+            psbt_wits: vec![],
+            label: "plain".to_string(),
+        };
+        // key origins: output 0 encodes the request's wallet path; the others carry their own
+        for (j, d) in r.dests.iter().enumerate() {
+            let own = match d {
+                Dest::Wallet(idx, _) => Some(PathKind::Normal(*idx)),
+                _ => None,
+            };
+            let p = if j == 0 { Some(r.path) } else { own };
+            let taproot = matches!(d, Dest::Wallet(_, 2));
+            g.psbt_outs.push(match p {
+                Some(PathKind::Empty) | None => (vec![], vec![]),
+                Some(p) => if taproot { (vec![], vec![p]) } else { (vec![p], vec![]) },
+            });
+        }
+        match rng.below(30) {
+            0 => {
+                let i = rng.below(n_in as u64) as usize;
+                g.psbt_ins[i] = None;
+                g.label = "witness_utxo-missing".into();
+            }
+            1 => {
+                g.psbt_ins.truncate(n_in - 1);
+                g.label = "psbt-fewer-inputs".into();
+            }
+            2 => {
+                g.psbt_ins.push(Some(5));
+                g.label = "psbt-more-inputs".into();
+            }
+            3 => {
+                if !g.psbt_outs.is_empty() {
+                    let j = rng.below(g.psbt_outs.len() as u64) as usize;
+                    g.psbt_outs[j].0.push(PathKind::Normal(21));
+                    g.psbt_outs[j].0.push(PathKind::Normal(19));
+                    g.label = "two-key-origins".into();
+                }
+            }
+            4 => {
+                g.psbt_outs.clear();
+                g.label = "psbt-no-outputs".into();
+            }
+            5 => {
+                g.found = false;
+                g.label = "unknown-dbid".into();
+            }
+            6 => {
+                // the first PSBT output names another wallet index than the destinations use
+                if let Some(o) = g.psbt_outs.first_mut() {
+                    *o = (vec![PathKind::Normal(21)], vec![]);
+                    g.label = "output0-origin-other-index".into();
+                }
+            }
+            7 => {
+                // origins of output 0 and output 1 exchanged (a signer reading the wrong output's path shows)
+                if g.psbt_outs.len() >= 2 {
+                    g.psbt_outs.swap(0, 1);
+                    g.label = "origins-of-output-0-and-1-exchanged".into();
+                }
+            }
+            8 => {
+                for a in g.psbt_ins.iter_mut() {
+                    *a = a.map(|v| v * 1000);
+                }
+                g.label = "psbt-amounts-msat-sized".into();
+            }
+            _ => {}
+        }
+        // the model's wallet table is relative to the mapped path
+        let mp = mapped_path(&g);
+        let mut rm = r.clone();
+        if let Some(p) = mp {
+            rm.path = p;
+        }
+        // PSBT outputs beyond the transaction's are not destinations
+        let script = rs_script(&r.rs);
+        let psbt = build_psbt(&r.tx, &g, &script);
+        let tx = real_tx(&r.tx);
+        let remote_point = make_test_pubkey(10);
+        let revocation_secret = [0x35u8; 32];
+        let dbid = if g.found { ch.dbid } else { ch.dbid + 77_000 };
+        let (t, p, w) = (WithSize(tx.clone()), WithSize(psbt.into()), Octets(script.to_bytes()));
+        let bytes = match (r.kind, any) {
+            (0, false) => msgs::SignDelayedPaymentToUs { commitment_number: r.cn, tx: t, psbt: p, wscript: w }.as_vec(),
+            (0, true) => msgs::SignAnyDelayedPaymentToUs { commitment_number: r.cn, tx: t, psbt: p, wscript: w, input: wire_input, peer_id: PubKey(PEER), dbid }.as_vec(),
+            (1, false) => msgs::SignRemoteHtlcToUs { remote_per_commitment_point: PubKey(remote_point.serialize()), tx: t, psbt: p, wscript: w, option_anchors: is_anchors(ctype) }.as_vec(),
+            (1, true) => msgs::SignAnyRemoteHtlcToUs { remote_per_commitment_point: PubKey(remote_point.serialize()), tx: t, psbt: p, wscript: w, option_anchors: rng.chance(1, 2), input: wire_input, peer_id: PubKey(PEER), dbid }.as_vec(),
+            (_, false) => msgs::SignPenaltyToUs { revocation_secret: DisclosedSecret(revocation_secret), tx: t, psbt: p, wscript: w }.as_vec(),
+            (_, true) => msgs::SignAnyPenaltyToUs { revocation_secret: DisclosedSecret(revocation_secret), tx: t, psbt: p, wscript: w, input: wire_input, peer_id: PubKey(PEER), dbid }.as_vec(),
+        };
+        let root = make_root_handler(&ch.node, g.proto);
+        let res = if any { handle_wire(&root, bytes) } else { handle_wire(&root.for_new_client(1, PubKey(PEER), dbid), bytes) };
+        let res = match res {
+            None => {
+                unencodable += 1;
+                continue;
+            }
+            Some(r) => r,
+        };
+        let obs = obs_wire(&res);
+        *dist.entry(obs.to_string()).or_insert(0) += 1;
+        *labels.entry(format!("{}|{}", if any { "any" } else { "chan" }, g.label)).or_insert(0) += 1;
+        // ---- the property on what was signed
+        let mut viol = vec![];
+        let mut sig_valid: Option<bool> = None;
+        let named = if any { wire_input as usize } else { 0 };
+        if let Ok(Ok((sig, sighash))) = &res {
+            signed += 1;
+            let true_amount = g.psbt_ins.get(named).cloned().flatten();
+            let pk: Option<PublicKey> = match r.kind {
+                0 => {
+                    let cn = r.cn;
+                    // a number whose point the channel does not hand out cannot have been signed for
+                    match ch.node.with_channel(&ch.channel_id, |chan| chan.get_per_commitment_point(cn)) {
+                        Ok(point) => Some(get_channel_delayed_payment_pubkey(&ch.node, &ch.channel_id, &point)),
+                        Err(_) => None,
+                    }
+                }
+                1 => Some(get_channel_htlc_pubkey(&ch.node, &ch.channel_id, &remote_point)),
+                _ => {
+                    let secp = Secp256k1::new();
+                    let point = PublicKey::from_secret_key(&secp, &SecretKey::from_slice(&revocation_secret).unwrap());
+                    Some(get_channel_revocation_pubkey(&ch.node, &ch.channel_id, &point))
+                }
+            };
+            let ok = match (Signature::from_compact(sig), true_amount, pk) {
+                (Ok(s), Some(a), Some(pk)) => *sighash == EcdsaSighashType::All as u8 && verify_sig(&tx, named, &s, &pk, a, &script, EcdsaSighashType::All),
+                _ => false,
+            };
+            sig_checked += 1;
+            sig_valid = Some(ok);
+            if !ok {
+                viol.push(format!(
+                    "the returned signature is not a SIGHASH_ALL signature by the mapped key over input {} of the request's transaction with that input's amount {:?} and the request's script: something else was signed than was named",
+                    named, true_amount
+                ));
+            }
+            let mut signed_req = rm.clone();
+            signed_req.input = named as u64;
+            viol.extend(sweep_monitor(&signed_req));
+        }
+        if !viol.is_empty() {
+            monitor_failures += 1;
+        }
+        let mut rq = json_sweep(&rm);
+        rq["glue"] = glue_json(&g);
+        let origins: Vec<String> = g.psbt_outs.iter().map(|(b, t)| (b.len() + t.len()).to_string()).collect();
+        let coq = format!(
+            "(({}, {}, {}, {}), {})",
+            coq_opt_list(&g.psbt_ins),
+            coq_list(&origins),
+            coq_bool(any),
+            coq_bool(g.found),
+            coq_sweep(&SweepReq { input: wire_input as u64, ..rm.clone() }, 2, obs)
+        );
+        emit(
+            "CASE",
+            json!({"id": id, "level": "handler", "request": rq, "observed": obs, "monitor_violation": viol,
+                   "signature_verifies_for_named_input": sig_valid, "structured": r.label != "malformed", "coq": coq}),
+        );
+        if obs == 1 {
+            pool.remove(&key);
+        }
+    }
+    emit(
+        "STATS",
+        json!({"kind": "sweephandler", "observed_distribution(0 signed,1 panic,150 refused)": dist, "labels": labels, "signed": signed,
+               "signatures_verified": sig_checked, "requests_not_encodable": unencodable, "monitor_failures": monitor_failures}),
+    );
+}
+
+fn htlchandler_domain(args: &Args) {
+    let mut rng = Rng::new(args.seed ^ 0x47ad);
+    let mut pool: HashMap<String, Chan> = HashMap::new();
+    let mut dist: BTreeMap<String, u64> = Default::default();
+    let mut labels: BTreeMap<String, u64> = Default::default();
+    let (mut monitor_failures, mut signed, mut sig_checked, mut out_of_domain_accepts, mut unencodable, mut any_nonzero_signed) = (0u64, 0u64, 0u64, 0u64, 0u64, 0u64);
+    let sets = rule_sets();
+    let other_point = make_test_pubkey(11);
+    for id in 0..args.n {
+        // 0 SignLocalHtlcTx, 1 SignAnyLocalHtlcTx, 2 SignRemoteHtlcTx
+        let msg = (id % 3) as u64;
+        let is_cp = msg == 2;
+        let ctype = *rng.pick(&[1u8, 3, 1, 3, 0, 2]);
+        let ri = *rng.pick(&[0usize, 0, 6, 7, 8]);
+        let (hd, cd) = *rng.pick(&[(6u16, 7u16), (144, 2016)]);
+        let (min, max) = *rng.pick(&[(253u32, 25_000u32), (1000, 1000), (0, U32MAX)]);
+        let key = format!("{}-{}-{}-{}", ctype, ri, cd, max);
+        if !pool.contains_key(&key) {
+            let k = pool.len() as u64 + 1000 * (args.seed % 1000) + 700;
+            pool.insert(key.clone(), make_chan(k, ctype, &sets[ri], 3, hd, cd, 53, min, max));
+        }
+        let ch = pool.get(&key).unwrap();
+        let mut r = gen_htlc(&mut rng, id, is_cp, ctype, hd, cd, min, max, ch.nh);
+        r.rules = ch.rules.clone();
+        r.point_given = false;
+        if r.tx.ins.is_empty() {
+            r.tx.ins.push((txid_of(2), 0, 0));
+        }
+        let remote_point = make_test_pubkey(10);
+        let cn = r.cn;
+        let holder_point: Option<PublicKey> = ch.node.with_channel(&ch.channel_id, |chan| Ok(chan.get_per_commitment_point(cn).ok())).expect("point");
+        let point = if is_cp { remote_point } else { holder_point.unwrap_or(remote_point) };
+        let (holder_points, cp_points) = ch
+            .node
+            .with_channel(&ch.channel_id, |chan| Ok((chan.get_channel_basepoints(), chan.setup.counterparty_points.clone())))
+            .expect("points");
+        let (a, b) = if is_cp { (&cp_points, &holder_points) } else { (&holder_points, &cp_points) };
+        let txkeys = keys_from(a, b, &point);
+        let keys = keyset(&txkeys, &keys_from(a, b, &other_point));
+        finish_htlc(&mut r, &keys);
+        // ---- the wire fields
+        let n_in = r.tx.ins.len();
+        let wire_input: u32 = if msg == 1 { *rng.pick(&[0u32, 0, 0, 0, 1, 2, 7]) } else { 0 };
+        let mut g = Glue {
+            any: msg == 1,
+            proto: *rng.pick(&[4u32, 5, 6]),
+            found: true,
+            wire_input,
+            psbt_ins: (0..n_in.max(wire_input as usize + if rng.chance(2, 3) { 1 } else { 0 }))
+                .map(|i| Some(if i == wire_input as usize { r.amount } else { r.amount.saturating_add(1_000 * (i as u64 + 1)) }))
+                .collect(),
+            psbt_outs: vec![],
+            psbt_wits: (0..r.tx.outs.len()).map(|_| true).collect(),
+            label: "plain".to_string(),
+        };
+        match rng.below(24) {
+            0 => {
+                let i = rng.below(n_in as u64) as usize;
+                g.psbt_ins[i] = None;
+                g.label = "witness_utxo-missing".into();
+            }
+            1 => {
+                g.psbt_ins.push(Some(r.amount / 2 + 3));
+                g.label = "psbt-more-inputs".into();
+            }
+            2 => {
+                if let Some(w) = g.psbt_wits.first_mut() {
+                    *w = false;
+                    g.label = "output0-witness_script-missing".into();
+                }
+            }
+            3 => {
+                g.psbt_wits.push(true);
+                g.label = "psbt-more-outputs".into();
+            }
+            4 => {
+                g.psbt_wits.clear();
+                g.label = "psbt-no-outputs".into();
+            }
+            5 => {
+                g.found = false;
+                g.label = "unknown-dbid".into();
+            }
+            6 => {
+                // the amount as millisatoshi (a unit slip between wire and core shows)
+                for a in g.psbt_ins.iter_mut() {
+                    *a = a.map(|v| v.saturating_mul(1000));
+                }
+                g.label = "psbt-amounts-msat-sized".into();
+            }
+            _ => {}
+        }
+        let named_psbt = if msg == 1 { wire_input as usize } else { 0 };
+        let mapped_amount = g.psbt_ins.get(named_psbt).cloned().flatten();
+        let tx = real_tx(&r.tx);
+        let script = rs_script(&r.rs);
+        let witscript = revokeable_script(&keys.revocation[0], if is_cp { hd } else { cd }, &keys.delayed[0]);
+        let psbt = build_psbt(&r.tx, &g, &witscript);
+        let dbid = if g.found { ch.dbid } else { ch.dbid + 77_000 };
+        let (t, p, w) = (WithSize(tx.clone()), WithSize(psbt.into()), Octets(script.to_bytes()));
+        let oa = is_anchors(ctype);
+        let bytes = match msg {
+            0 => msgs::SignLocalHtlcTx { commitment_number: cn, tx: t, psbt: p, wscript: w, option_anchors: oa }.as_vec(),
+            1 => msgs::SignAnyLocalHtlcTx { commitment_number: cn, tx: t, psbt: p, wscript: w, option_anchors: oa, input: wire_input, peer_id: PubKey(PEER), dbid }.as_vec(),
+            _ => msgs::SignRemoteHtlcTx { tx: t, psbt: p, wscript: w, remote_per_commitment_point: PubKey(remote_point.serialize()), option_anchors: oa }.as_vec(),
+        };
+        let root = make_root_handler(&ch.node, g.proto);
+        let res = if msg == 1 { handle_wire(&root, bytes) } else { handle_wire(&root.for_new_client(1, PubKey(PEER), dbid), bytes) };
+        let res = match res {
+            None => {
+                unencodable += 1;
+                continue;
+            }
+            Some(r) => r,
+        };
+        let obs = obs_wire(&res);
+        *dist.entry(obs.to_string()).or_insert(0) += 1;
+        *labels.entry(format!("{}|{}", ["SignLocalHtlcTx", "SignAnyLocalHtlcTx", "SignRemoteHtlcTx"][msg as usize], g.label)).or_insert(0) += 1;
+        let mut viol = vec![];
+        let mut ood = false;
+        let mut sig_valid: Option<bool> = None;
+        // the request as the mapping reads it: the amount is the named PSBT input's
+        let mut rm = r.clone();
+        if let Some(a) = mapped_amount {
+            rm.amount = a;
+        }
+        if let Ok(Ok((sig, sighash))) = &res {
+            signed += 1;
+            if msg == 1 && wire_input != 0 {
+                any_nonzero_signed += 1;
+            }
+            let pk = get_channel_htlc_pubkey(&ch.node, &ch.channel_id, &point);
+            let ty = if is_anchors(r.ctype) { EcdsaSighashType::SinglePlusAnyoneCanPay } else { EcdsaSighashType::All };
+            let ok = match (Signature::from_compact(sig), mapped_amount) {
+                (Ok(s), Some(a)) => *sighash == ty as u8 && verify_sig(&tx, 0, &s, &pk, a, &script, ty),
+                _ => false,
+            };
+            sig_checked += 1;
+            sig_valid = Some(ok);
+            let (v, o) = htlc_monitor(&rm, &keys);
+            ood = o;
+            viol = v;
+            if !ok {
+                viol.push(format!(
+                    "the returned signature is not one by the mapped HTLC key over input 0 of the request's transaction with the amount {:?} of PSBT input {} and the request's script under the channel's sighash type",
+                    mapped_amount, named_psbt
+                ));
+            }
+            if ood {
+                out_of_domain_accepts += 1;
+                viol.clear();
+            }
+        }
+        if !viol.is_empty() {
+            monitor_failures += 1;
+        }
+        let mut rq = json_htlc(&rm);
+        rq["glue"] = glue_json(&g);
+        let coq = format!(
+            "(({}, {}, {}, {}, {}), {})",
+            coq_opt_list(&g.psbt_ins),
+            coq_list(&g.psbt_wits.iter().map(|b| coq_bool(*b).to_string()).collect::<Vec<_>>()),
+            msg,
+            wire_input,
+            coq_bool(g.found),
+            coq_htlc(&r, &keys, 2, obs)
+        );
+        emit(
+            "CASE",
+            json!({"id": id, "level": "handler", "request": rq, "observed": obs, "monitor_violation": viol,
+                   "accepted_outside_theorem_domain": obs == 0 && ood, "signature_verifies": sig_valid,
+                   "structured": r.label != "malformed", "coq": coq}),
+        );
+        if obs == 1 {
+            pool.remove(&key);
+        }
+    }
+    emit(
+        "STATS",
+        json!({"kind": "htlchandler", "observed_distribution(0 signed,1 panic,150 refused)": dist, "labels": labels, "signed": signed,
+               "signatures_verified": sig_checked, "accepted_outside_theorem_domain": out_of_domain_accepts,
+               "SignAnyLocalHtlcTx_signed_with_input_above_0(signature is over input 0, amount of PSBT input k)": any_nonzero_signed,
+               "requests_not_encodable": unencodable, "monitor_failures": monitor_failures}),
+    );
+}
+
 fn main() {
     let argv: Vec<String> = std::env::args().collect();
     let sub = argv.get(1).cloned().unwrap_or_default();
@@ -1575,6 +2124,8 @@ fn main() {
         "sweepchan" => sweepchan_domain(&args),
         "htlcval" => htlcval_domain(&args),
         "htlcchan" => htlcchan_domain(&args),
+        "sweephandler" => sweephandler_domain(&args),
+        "htlchandler" => htlchandler_domain(&args),
         other => {
             eprintln!("unknown sub-domain {:?}", other);
             std::process::exit(2);
